@@ -206,6 +206,13 @@ func BuildUniverse(rng *lib.Rng, tier string) *Universe {
 		Range(P("Int")), Range(P("Int8")),
 		Ref(Auth{K: AUnauth}, P("Never")), Ref(Auth{K: AConj, Ents: []int{0}}, P("Never")),
 		Ref(Auth{K: AUnauth}, IS(C("S1"), "I1")), Ref(Auth{K: AUnauth}, Opt(C("S1"))),
+		// the same qualified names declared at a second address: distinct types
+		Opt(C("S1@2")), Opt(Opt(C("S1@2"))), Opt(C("R1@2")), Var(C("S1@2")), Var(C("R1@2")), Const(C("S1@2"), 2), Dict(P("String"), C("S1@2")), Dict(C("En@2"), P("Int")),
+		Dict(C("En"), P("Int")), Ref(Auth{K: AUnauth}, C("S1@2")), Ref(Auth{K: AConj, Ents: []int{0}}, C("S1@2")), Ref(Auth{K: AConj, Ents: []int{3}}, C("S1")),
+		Ref(Auth{K: AConj, Ents: []int{3}}, C("S1@2")), Ref(Auth{K: AMap, Map: 1}, C("S1@2")), Ref(Auth{K: AUnauth}, IS(nil, "I1@2")), Ref(Auth{K: AUnauth}, C("R1@2")),
+		Cap(Ref(Auth{K: AUnauth}, C("S1@2"))), Cap(Ref(Auth{K: AUnauth}, C("R1@2"))), Cap(Ref(Auth{K: AConj, Ents: []int{3}}, C("S1"))),
+		IS(nil, "I1@2"), IS(nil, "I2@2"), IS(nil, "RI@2"), IS(nil, "I1", "I1@2"), IS(nil, "I1@2", "I2@2"), Opt(IS(nil, "I1@2")), Var(IS(nil, "RI@2")),
+		Fun(FunTy{Ret: C("S1@2")}), Fun(FunTy{Ret: P("Void"), Params: []*Ty{C("S1@2")}}), Fun(FunTy{Ret: C("S1")}), Fun(FunTy{Ret: P("Void"), Params: []*Ty{C("S1")}}),
 		Fun(FunTy{Ret: P("Never")}), Fun(FunTy{Ret: P("Any")}), Fun(FunTy{Ret: P("Void"), Params: []*Ty{P("Never")}}), Fun(FunTy{Ret: P("Void"), Params: []*Ty{P("Any")}}),
 	}
 
@@ -222,9 +229,9 @@ func BuildUniverse(rng *lib.Rng, tier string) *Universe {
 			rest = append(rest, t)
 		}
 	}
-	target := 420
+	target := 520
 	if tier == "thorough" {
-		target = 1500
+		target = 1700
 	}
 	// deterministic shuffle of the rest, then cut
 	for i := len(rest) - 1; i > 0; i-- {
